@@ -82,6 +82,8 @@ package smtp
 //@   ghostset c.lastCode = code
 //@   modifies c.replies, c.finals, c.lastCode
 //@   ensures c.replies == old(c.replies) + 1 && c.finals == old(c.finals) + (code >= 300 && code < 400 ? 0 : 1) && c.lastCode == code
+//@   loop 1:
+//@     invariant 0 <= i && lastLineIndex == len(text) - 1
 
 //@ contract (*Conn).protocolError(c, code, ec, msg)
 //@   prop C04 C08 C19
@@ -109,8 +111,7 @@ package smtp
 //@ contract (*Conn).handleData(c, arg)
 //@   prop C02 C03 C04 C08
 //@   requires connInv(c) && !c.closed && !c.server.LMTP
-//@   modifies c.*, c.bdatPipe.state, c.text.R.pos, c.text.R.iofail, c.text.R.unreadable
-//@   ensures server-kept: c.server == old(c.server)
+//@   modifies c.bdatPipe, c.bdatStatus, c.bytesReceived, c.fromReceived, c.recipients, c.replies, c.finals, c.lastCode, c.cbData, c.cbReset, c.bdatPipe.state, c.text.R.pos, c.text.R.iofail, c.text.R.unreadable
 //@   ensures inv: connInv(c) && !c.closed
 //@   ensures @C04 refusal-is-one-5xx: c.replies == old(c.replies) + 1 ==> c.finals == old(c.finals) + 1 && c.lastCode >= 500 && c.lastCode <= 599 && c.cbData == old(c.cbData) && c.cbReset == old(c.cbReset) && c.text.R.pos == old(c.text.R.pos)
 //@   ensures @C04 accepted-is-354-plus-one-final: c.replies != old(c.replies) + 1 ==> c.replies == old(c.replies) + 2 && c.finals == old(c.finals) + 1 && c.cbData == old(c.cbData) + 1
@@ -135,11 +136,10 @@ package smtp
 //@ contract (*Conn).handleGreet(c, enhanced, arg)
 //@   prop C03 C04 C08 C12
 //@   requires connInv(c) && !c.closed
-//@   modifies c.*, c.bdatPipe.state
-//@   ensures server-kept: c.server == old(c.server)
+//@   modifies c.helo, c.session, c.bdatPipe, c.bdatStatus, c.bytesReceived, c.fromReceived, c.recipients, c.replies, c.finals, c.lastCode, c.cbNew, c.cbReset, c.bdatPipe.state
 //@   before Backend.NewSession: @C03 greeting-name-visible: c.helo == domain && domain != ""
 //@   ensures inv: connInv(c) && !c.closed
-//@   ensures @C04 one-reply: c.replies == old(c.replies) + 1
+//@   ensures @C04 one-reply: c.replies == old(c.replies) + 1 && c.finals == old(c.finals) + 1
 //@   ensures @C03 regreeting-ends-transaction: old(c.session) != nil && c.helo != old(c.helo) ==> !c.fromReceived && len(c.recipients) == 0 && c.bdatPipe == nil
 //@   ensures @C03 greeted-means-session: c.helo != "" ==> c.session != nil
 //@   ensures @C08 session-kept-or-created: old(c.session) != nil ==> c.session == old(c.session) && c.cbNew == old(c.cbNew)
@@ -155,7 +155,7 @@ package smtp
 //@   requires connInv(c) && !c.closed
 //@   modifies c.binarymime, c.fromReceived, c.replies, c.finals, c.lastCode, c.cbMail
 //@   ensures inv: connInv(c) && !c.closed
-//@   ensures @C04 one-reply: c.replies == old(c.replies) + 1
+//@   ensures @C04 one-reply: c.replies == old(c.replies) + 1 && c.finals == old(c.finals) + 1
 //@   ensures @C03 out-of-order-refused: old(c.helo) == "" || old(c.bdatPipe) != nil ==> c.lastCode == 502 && c.cbMail == old(c.cbMail) && c.fromReceived == old(c.fromReceived)
 //@   ensures @C03 at-most-one-callback: c.cbMail == old(c.cbMail) || c.cbMail == old(c.cbMail) + 1
 //@   ensures @C03 accepted-only-by-backend: c.fromReceived && !old(c.fromReceived) ==> c.cbMail == old(c.cbMail) + 1 && c.lastCode == 250
@@ -171,7 +171,7 @@ package smtp
 //@   requires connInv(c) && !c.closed
 //@   modifies c.recipients, c.recipients[**], c.replies, c.finals, c.lastCode, c.cbRcpt
 //@   ensures inv: connInv(c) && !c.closed
-//@   ensures @C04 one-reply: c.replies == old(c.replies) + 1
+//@   ensures @C04 one-reply: c.replies == old(c.replies) + 1 && c.finals == old(c.finals) + 1
 //@   ensures @C03 out-of-order-refused: !old(c.fromReceived) || old(c.bdatPipe) != nil ==> c.lastCode == 502 && c.cbRcpt == old(c.cbRcpt) && len(c.recipients) == len(old(c.recipients))
 //@   ensures @C03 at-most-one-callback: c.cbRcpt == old(c.cbRcpt) || c.cbRcpt == old(c.cbRcpt) + 1
 //@   ensures @C03 accepted-only-by-backend: len(c.recipients) != len(old(c.recipients)) ==> len(c.recipients) == len(old(c.recipients)) + 1 && c.cbRcpt == old(c.cbRcpt) + 1 && c.lastCode == 250
@@ -218,17 +218,18 @@ package smtp
 //@   prop C19 C04
 //@   requires connWF(c)
 //@   requires @C19 line-limit-active: c.lineLimitReader.LineLimit == c.server.MaxLineLength
-//@   modifies c.text.R.pos, c.text.R.iofail, c.text.R.unreadable
-//@   ensures c.text.R.pos >= old(c.text.R.pos) && (err != nil ==> c.text.R.iofail)
+//@   ghostset c.readErr = old(c.readErr) || err != nil
+//@   modifies c.text.R.pos, c.text.R.iofail, c.text.R.unreadable, c.readErr
+//@   ensures c.text.R.pos >= old(c.text.R.pos) && c.readErr == (old(c.readErr) || err != nil)
 
 //@ contract (*Conn).handleStartTLS(c)
 //@   prop C03 C08 C09 C10
 //@   requires connInv(c) && !c.closed
-//@   modifies c.*, c.bdatPipe.state, c.session.loggedOut
-//@   ensures server-kept: c.server == old(c.server)
+//@   modifies c.conn, c.text, c.lineLimitReader, c.session, c.helo, c.didAuth, c.bdatPipe, c.bdatStatus, c.bytesReceived, c.fromReceived, c.recipients, c.replies, c.finals, c.lastCode, c.cbLogout, c.cbReset, c.bdatPipe.state, c.session.loggedOut
 //@   ensures inv: connInv(c) && !c.closed
 //@   ensures @C10 refused-unless-available: isTLS(old(c)) && old(c.conn) == c.conn || c.server.TLSConfig == nil ==> c.lastCode == 502 && c.replies == old(c.replies) + 1
-//@   ensures @C10 refusal-changes-nothing: c.conn == old(c.conn) ==> c.session == old(c.session) && c.helo == old(c.helo) && c.didAuth == old(c.didAuth) && c.text == old(c.text) && c.fromReceived == old(c.fromReceived) && c.cbLogout == old(c.cbLogout) && c.cbReset == old(c.cbReset)
+//@   ensures @C10 refusal-changes-nothing: c.conn == old(c.conn) ==> c.session == old(c.session) && c.helo == old(c.helo) && c.didAuth == old(c.didAuth) && c.text == old(c.text) && c.fromReceived == old(c.fromReceived) && c.cbLogout == old(c.cbLogout) && c.cbReset == old(c.cbReset) && c.lineLimitReader == old(c.lineLimitReader)
+//@   ensures @C04 at-least-one-final-reply: c.finals >= old(c.finals) + 1
 //@   ensures @C09,C10 upgrade-forgets-plaintext-state: c.conn != old(c.conn) ==> isTLS(c) && c.helo == "" && !c.didAuth && !c.fromReceived && len(c.recipients) == 0 && c.bdatPipe == nil && c.session == nil
 //@   ensures @C10 upgrade-new-text-conn: c.conn != old(c.conn) ==> c.text != old(c.text) && !wasalloc(c.text)
 //@   ensures @C10 upgrade-new-empty-buffer: c.conn != old(c.conn) ==> !wasalloc(c.text.R) && c.text.R.pos == 0
@@ -241,15 +242,15 @@ package smtp
 //@   prop C04 C08 C09 C12
 //@   requires connInv(c) && !c.closed
 //@   requires c.lineLimitReader.LineLimit == c.server.MaxLineLength
-//@   modifies c.didAuth, c.replies, c.finals, c.lastCode, c.cbAuth, c.text.R.pos, c.text.R.iofail, c.text.R.unreadable
+//@   modifies c.didAuth, c.replies, c.finals, c.lastCode, c.cbAuth, c.text.R.pos, c.text.R.iofail, c.text.R.unreadable, c.readErr
 //@   ensures inv: connInv(c) && !c.closed
 //@   ensures @C09 needs-greeting: old(c.helo) == "" ==> c.lastCode == 502 && c.replies == old(c.replies) + 1 && c.didAuth == old(c.didAuth) && c.cbAuth == old(c.cbAuth)
 //@   ensures @C09 at-most-once: old(c.didAuth) && old(c.helo) != "" ==> c.lastCode == 503 && c.replies == old(c.replies) + 1 && c.cbAuth == old(c.cbAuth)
 //@   ensures @C09 insecure-refused: !authAllowedSpec(c) ==> c.cbAuth == old(c.cbAuth) && c.didAuth == old(c.didAuth) && c.replies == old(c.replies) + 1 && c.lastCode >= 500
 //@   ensures @C09 success-only-with-235: c.didAuth != old(c.didAuth) ==> c.didAuth && c.lastCode == 235 && c.cbAuth > old(c.cbAuth)
-//@   ensures @C04 final-reply-or-io-failure: c.finals == old(c.finals) + 1 || c.text.R.iofail
+//@   ensures @C04 one-final-reply-unless-reading-failed: c.finals == old(c.finals) + 1 || (c.readErr && c.finals == old(c.finals))
 //@   loop 1:
-//@     invariant c.didAuth == old(c.didAuth) && c.finals == old(c.finals) && c.cbAuth >= old(c.cbAuth)
+//@     invariant c.didAuth == old(c.didAuth) && c.finals == old(c.finals) && c.cbAuth >= old(c.cbAuth) && c.readErr == old(c.readErr)
 //@     invariant sasl != nil && sasl.conn == c && authAllowedSpec(c) && c.helo != "" && !c.didAuth
 
 // ---------------------------------------------------------------------------------------
@@ -287,10 +288,12 @@ package smtp
 //@ contract (*statusCollector).fillRemaining(s, err)
 //@   prop C13
 //@   requires s != nil
+//@   modifies *chan
 
 //@ contract (*Conn).handlePanic(c, err, status)
 //@   prop C13 C19
 //@   requires c != nil && c.server != nil && c.conn != nil && c.server.ErrorLog != nil
+//@   modifies *chan
 
 // ---------------------------------------------------------------------------------------
 // BDAT
@@ -309,8 +312,8 @@ package smtp
 //@   nooverflow Conn.bytesReceived + size: with MaxMessageBytes == 0 this needs fewer than 2^63 octets in one transaction
 //@   requires connInv(c) && !c.closed && !c.server.LMTP
 //@   requires c.lineLimitReader.LineLimit == c.server.MaxLineLength
-//@   modifies c.*, c.bdatPipe.state, c.bdatPipe.written, c.session.loggedOut, c.text.R.pos, c.text.R.iofail, c.text.R.unreadable, c.lineLimitReader.LineLimit, chan(c.dataResult)
-//@   ensures server-kept: c.server == old(c.server)
+//@   modifies c.bdatPipe, c.bdatStatus, c.dataResult, c.bytesReceived, c.fromReceived, c.recipients, c.replies, c.finals, c.lastCode, c.cbReset, c.closed, c.session, c.cbLogout, c.bdatPipe.state, c.bdatPipe.written, c.session.loggedOut, c.text.R.pos, c.text.R.iofail, c.text.R.unreadable, c.lineLimitReader.LineLimit, chan(c.dataResult)
+//@   onrecv errOK($v)
 //@   before (*io.PipeWriter).Close: @C07,C05 clean-eof-only-after-complete-last-chunk: last && lrOf(chunk).N == 0
 //@   ensures inv: connInv(c)
 //@   ensures @C19,C05 line-limit-restored: c.lineLimitReader.LineLimit == c.server.MaxLineLength && c.lineLimitReader == old(c.lineLimitReader)
@@ -336,7 +339,7 @@ package smtp
 //@   ensures inv: connInv(c)
 //@   ensures @C19 line-limit-active-after-every-command: c.text == old(c.text) ==> c.lineLimitReader.LineLimit == c.server.MaxLineLength
 //@   ensures @C19 line-limit-active-after-upgrade: c.lineLimitReader.LineLimit == c.server.MaxLineLength
-//@   ensures @C04 at-least-one-final-reply-or-io-failure: c.finals >= old(c.finals) + 1 || c.text.R.iofail
+//@   ensures @C04 at-least-one-final-reply-unless-reading-failed: c.finals >= old(c.finals) + 1 || c.readErr
 //@   ensures @C08 no-session-lost: c.cbNew - c.cbLogout == (c.session != nil ? 1 : 0)
 //@   ensures @C19 error-count: c.errCount == old(c.errCount) || c.errCount == old(c.errCount) + 1
 
